@@ -260,6 +260,7 @@ type workerOut struct {
 	KnownHits     map[string]int    `json:"known_hits"`
 	KnownExample  map[string]string `json:"known_example"`
 	OtherProps    map[string]int    `json:"other_property_observations"`
+	OtherExample  map[string]string `json:"other_property_example"`
 	Violations    []violationReport `json:"violations"`
 	Samples       []json.RawMessage `json:"samples"`
 	SelfTest      map[string]uint64 `json:"selftest"`
@@ -540,6 +541,14 @@ func merge(a, b *workerOut) {
 	addMapI(&a.Outcomes, b.Outcomes)
 	addMapI(&a.KnownHits, b.KnownHits)
 	addMapI(&a.OtherProps, b.OtherProps)
+	if a.OtherExample == nil {
+		a.OtherExample = map[string]string{}
+	}
+	for k, v := range b.OtherExample {
+		if a.OtherExample[k] == "" {
+			a.OtherExample[k] = v
+		}
+	}
 	if a.KnownExample == nil {
 		a.KnownExample = map[string]string{}
 	}
@@ -606,6 +615,7 @@ func writeEvidence(id, tier string, seed uint64, pc propCfg, t *workerOut, nviol
 		"known_findings_hit":          t.KnownHits,
 		"known_findings_reproduced":   kf,
 		"other_property_observations": t.OtherProps,
+		"other_property_example":      t.OtherExample,
 		"real_vs_stub": map[string]any{
 			"real":  []string{"server (instrumented)", "rib (instrumented)", "client (instrumented)", "fluent", "chk", "compliance", "ygot", "protobuf", "uuid", "glog"},
 			"stub":  []string{"grpc transport -> simnet", "goroutine scheduler -> simrt controller", "wall clock -> testing/synctest fake clock", "map iteration order / select choice -> tapes"},
